@@ -30,6 +30,10 @@ def _worker(fn, conn_in, conn_out, init, initargs):
                 break
             i, job = msg
             try:
+                # generated sources must depend on the job alone, not on
+                # which jobs this worker happened to run before
+                from vlib.build import reset_group_counter
+                reset_group_counter()
                 r = fn(job)
                 conn_out.send((i, 'ok', r))
             except SystemExit as e:
